@@ -47,6 +47,10 @@ def configs(tier):
     # the same servers given as strings in their non-canonical spellings ("host", "host:port")
     for ra in (0, 1):
         out.append((2, ra, False, "refused+strings"))
+    # a hasher of the user's own with only the documented interface
+    for ra in (0, 1):
+        for ie in (False, True):
+            out.append((2, ra, ie, "refused+minhasher"))
     return out
 
 
@@ -74,7 +78,8 @@ def event_menu(n, tier):
     # set_big: a value the (healthy) server refuses with SERVER_ERROR - a per-request error, not a server failure
     # get_garbled: the (healthy) server's reply header is garbled - the reader fails with a ValueError, which is
     # the server's own fault for that one request: no failure record, and nothing escapes with ignore_exc
-    ops = ["get", "get_many", "set_many", "set_big", "get_garbled"] + (["set", "delete"] if tier != "quick" else [])
+    # delete_many: the one multi-key call that has no result to merge (its key is one nothing is stored under)
+    ops = ["get", "get_many", "set_many", "set_big", "get_garbled", "delete_many"] + (["set", "delete"] if tier != "quick" else [])
     ev = []
     for i in range(n):
         for o in ops:
@@ -87,10 +92,33 @@ def event_menu(n, tier):
     return ev
 
 
+class MinimalHasher:
+    """A user-supplied hasher with exactly the interface HashClient documents (add_node, remove_node,
+    get_node) and nothing else; it places keys by the same published rule."""
+
+    def __init__(self):
+        self._ring = []
+
+    def add_node(self, node):
+        if node not in self._ring:
+            self._ring.append(node)
+
+    def remove_node(self, node):
+        self._ring.remove(node)
+
+    def get_node(self, key):
+        return rendezvous(self._ring, key) if self._ring else None
+
+
+def _members(hasher):
+    return hasher._ring if isinstance(hasher, MinimalHasher) else hasher.nodes
+
+
 class World:
     def __init__(self, cfg):
         n, ra, ie, mode = cfg
         strings = mode.endswith("+strings")
+        minimal = mode.endswith("+minhasher")
         mode = mode.split("+")[0]
         self.mode = mode
         self.cfg = cfg
@@ -108,7 +136,8 @@ class World:
                 srv.execute(it)
         specs = [h if i == 0 else "%s:%s" % (h, p) for i, (h, p) in enumerate(self.srvs)] if strings else self.srvs
         self.hc = HashClient(specs, socket_module=self.net.module(), retry_attempts=ra, retry_timeout=RT,
-                             dead_timeout=DT, ignore_exc=ie, default_noreply=False, connect_timeout=1, timeout=1)
+                             dead_timeout=DT, ignore_exc=ie, default_noreply=False, connect_timeout=1, timeout=1,
+                             **({"hasher": MinimalHasher} if minimal else {}))
         self.seq = 0
         # the rotation as it is at the moment a key is routed (a server can be revived and evicted
         # again within one call, so the rotation before/after the call is not enough)
@@ -116,7 +145,7 @@ class World:
         orig_get_node = self.hc.hasher.get_node
 
         def get_node(key):
-            self.rot_seen.append(set(map(str, self.hc.hasher.nodes)))
+            self.rot_seen.append(set(map(str, _members(self.hc.hasher))))
             return orig_get_node(key)
 
         self.hc.hasher.get_node = get_node
@@ -139,7 +168,7 @@ class World:
                 tuple(sorted(min(now - t, CLAMP) for t in self.contacts[a] if now - t <= DT)),
                 i in self.ever_failed,
             ))
-        return (tuple(sorted(map(str, hc.hasher.nodes))), tuple(per), min(now - hc._last_dead_check_time, CLAMP))
+        return (tuple(sorted(map(str, _members(hc.hasher)))), tuple(per), min(now - hc._last_dead_check_time, CLAMP))
 
     def troubled(self):
         hc = self.hc
@@ -180,7 +209,7 @@ class World:
         self.ncall += 1
         net.call = self.ncall
         k1, k2, k3 = self.keys[i]
-        rot0 = set(map(str, hc.hasher.nodes))
+        rot0 = set(map(str, _members(hc.hasher)))
         failed0 = set(hc._failed_clients)
         dead0 = set(hc._dead_clients)
         ev0 = len(net.events)
@@ -197,6 +226,8 @@ class World:
                 res = ("ret", hc.get_many([k1, k2]))
             elif name == "set_many":
                 res = ("ret", hc.set_many({k1: b"v", k2: b"v"}, noreply=False))
+            elif name == "delete_many":
+                res = ("ret", hc.delete_many([k3], noreply=False))
             elif name == "set_big":
                 res = ("ret", hc.set(k3, b"x" * (ITEM_MAX + 1), noreply=False))
             elif name == "get_garbled":
@@ -217,7 +248,7 @@ class World:
                     touched.append(a)
         bad = []
         desc = f"{name} on a key owned by {self.names[i]}"
-        rot1 = set(map(str, hc.hasher.nodes))
+        rot1 = set(map(str, _members(hc.hasher)))
         unknown = (rot0 | rot1) - set(self.names)
         if unknown:
             bad.append(("rotation-holds-unknown-node", f"{desc}: the rotation contains {sorted(unknown)}, the servers are "
@@ -283,7 +314,7 @@ class World:
                             f"(contacted: {touched})"))
             elif res[0] != "ret" or (name == "get" and res[1] != b"v") or (name == "set" and res[1] is not True) \
                     or (name == "get_many" and res[1] != {k1: b"v", k2: b"v"}) or (name == "set_many" and res[1] != []):
-                if name not in ("delete", "set_big", "get_garbled"):
+                if name not in ("delete", "set_big", "get_garbled", "delete_many"):
                     bad.append(("healthy-owner-wrong-result", f"{desc}: owner never failed, result {res!r}"))
         # M4: while the owner is out of rotation, its keys are served by the servers in rotation
         # (any contacted server must have been in the rotation at the moment the key was routed)
@@ -326,7 +357,7 @@ class World:
                         hc.get_many([k1, k2])
                 except Exception:
                     pass
-        rot = sorted(map(str, hc.hasher.nodes))
+        rot = sorted(map(str, _members(hc.hasher)))
         bad = []
         how = "one operation per server every second" if steady else "two pauses, each followed by one operation per server"
         if multi:
@@ -417,7 +448,7 @@ def _grid1_worker(job, chk):
     cfg = (2, ra, ie, mode)
     T = 15 if tier == "quick" else 18
     nhist = 0
-    for size in range(1, 6 if tier == "quick" else 7):
+    for size in range(1, 7 if (tier != "quick" or ra <= 1) else 6):  # six operations: first failure, retry, evicting call, revival, retry, second eviction
         for st in itertools.combinations(range(0, T + 1), size):
             w = World(cfg)
             w.apply(("fail", 0))
